@@ -95,6 +95,38 @@ pub fn cycle_files() -> Vec<F> {
 
 const NQ_CYCLE: u8 = 5;
 
+/// Fourth workspace: a module and a package of the same name side by side (helpers.py and
+/// helpers/__init__.py): which one `import helpers` means must not depend on whose text is cached.
+pub fn clash_files() -> Vec<F> {
+    vec![
+        F { rel: "conftest.py", initially_scanned: true, versions: vec![("disk: star-imports helpers", "from helpers import *\n")] },
+        F { rel: "helpers.py", initially_scanned: true, versions: vec![
+            ("disk: module defines resource and module_only", "import pytest\n\n@pytest.fixture\ndef resource():\n    return 1\n\n@pytest.fixture\ndef module_only():\n    return 2\n"),
+            ("module defines resource only", "import pytest\n\n@pytest.fixture\ndef resource():\n    return 1\n"),
+        ] },
+        F { rel: "helpers/__init__.py", initially_scanned: true, versions: vec![
+            ("disk: package defines resource and package_only", "import pytest\n\n@pytest.fixture\ndef resource():\n    return 3\n\n@pytest.fixture\ndef package_only():\n    return 4\n"),
+        ] },
+        F { rel: "test_app.py", initially_scanned: true, versions: vec![("disk: uses the three names", "def test_app(resource, module_only, package_only):\n    pass\n")] },
+    ]
+}
+
+const NQ_CLASH: u8 = 3;
+
+fn run_query_clash(db: &FixtureDatabase, root: &Path, q: u8) -> String {
+    let p = |r: &str| root.join(r);
+    let root_s = root.to_string_lossy().to_string();
+    let keys = |v: Vec<pytest_language_server::FixtureDefinition>| v.iter().map(|d| def_key(d, &root_s)).collect::<Vec<_>>();
+    match q {
+        0 => format!("available(test_app.py) = {:?}", keys(db.get_available_fixtures(&p("test_app.py")))),
+        1 => format!("goto(resource) = {:?}, goto(module_only) = {:?}, goto(package_only) = {:?}",
+            db.find_fixture_definition(&p("test_app.py"), 0, 13).map(|d| def_key(&d, &root_s)),
+            db.find_fixture_definition(&p("test_app.py"), 0, 23).map(|d| def_key(&d, &root_s)),
+            db.find_fixture_definition(&p("test_app.py"), 0, 36).map(|d| def_key(&d, &root_s))),
+        _ => format!("imported(resource in conftest.py) = {}, imported(package_only in conftest.py) = {}", db.is_fixture_imported_in_file("resource", &p("conftest.py")), db.is_fixture_imported_in_file("package_only", &p("conftest.py"))),
+    }
+}
+
 fn run_query_cycle(db: &FixtureDatabase, root: &Path, q: u8) -> String {
     let p = |r: &str| root.join(r);
     let root_s = root.to_string_lossy().to_string();
@@ -400,6 +432,43 @@ impl Model for CacheModel {
 }
 
 /// evict(P) ≡ close(P): push a database over MAX_FILE_CACHE_SIZE for real and compare the delta
+/// Open documents whose buffer differs from the file on disk, in a workspace large enough for the
+/// real eviction to run: the answers inside those documents must be the same after the eviction as
+/// before it (whichever entries it picks). Returns (documents, documents whose text was evicted).
+fn eviction_of_modified_documents(rep: &'static Report) -> Value {
+    let sc = Scratch::new("c07evm");
+    let db = FixtureDatabase::new();
+    let disk = "import pytest\n\n@pytest.fixture\ndef ev():\n    return 1\n\ndef test_e(ev):\n    pass\n";
+    // the buffer: three more lines above the test, so the usage sits on another line than on disk
+    let buf = "import pytest\n\n@pytest.fixture\ndef ev():\n    return 1\n\nA = 1\nB = 2\n\ndef test_e(ev):\n    pass\n";
+    let m = 300usize;
+    let docs: Vec<PathBuf> = (0..m).map(|i| sc.path().join(format!("open{}/test_e.py", i))).collect();
+    for p in &docs {
+        write_file(sc.path(), &crate::db::rel(p, &sc.path().to_string_lossy()), disk);
+        db.analyze_file(p.clone(), buf);
+    }
+    let ask = |db: &FixtureDatabase, p: &PathBuf| db.find_fixture_definition(p, 9, 12).map(|d| d.line);
+    let before: Vec<Option<usize>> = docs.iter().map(|p| ask(&db, p)).collect();
+    for i in 0..1800 {
+        write_file(sc.path(), &format!("d{}/test_e.py", i), disk);
+        db.analyze_file(sc.path().join(format!("d{}/test_e.py", i)), disk);
+    }
+    let evicted = docs.iter().filter(|p| !db.file_cache.contains_key(*p)).count();
+    let mut changed = 0usize;
+    for (p, b) in docs.iter().zip(&before) {
+        let a = ask(&db, p);
+        if a != *b {
+            changed += 1;
+            if !rep.count_if_seen("eviction changes the answers inside an open document whose buffer differs from disk") {
+                rep.violation("eviction changes the answers inside an open document whose buffer differs from disk",
+                    &format!("{}: go-to-definition on the usage in the buffer gave {:?} before the eviction and {:?} after it ({} of {} such documents lost their cached text)", crate::db::rel(p, &sc.path().to_string_lossy()), b, a, evicted, m),
+                    || json!({"disk": disk, "buffer": buf, "documents": m, "evicted": evicted}));
+            }
+        }
+    }
+    json!({"modified_open_documents": m, "whose_text_was_evicted": evicted, "whose_answers_changed": changed})
+}
+
 fn eviction_conformance(rep: &'static Report) -> Value {
     let sc = Scratch::new("c07ev");
     let db = FixtureDatabase::new();
@@ -407,7 +476,8 @@ fn eviction_conformance(rep: &'static Report) -> Value {
     let text = "import pytest\n\n@pytest.fixture\ndef ev():\n    return 1\n\ndef test_e(ev):\n    pass\n";
     for i in 0..n {
         let p = sc.path().join(format!("d{}/test_e.py", i));
-        // virtual files (not on disk): analysis only needs the text
+        // files exist on disk with the analysed text (only text that can be read back is evicted)
+        write_file(sc.path(), &format!("d{}/test_e.py", i), text);
         db.analyze_file(p.clone(), text);
         if i + 1 < n {
             // warm the per-path caches; nothing is queried after the analysis that crosses the
@@ -482,11 +552,14 @@ pub fn run(rep: &'static Report) {
     let (v1, model) = explore(rep, files(), depth, NQ, run_query);
     let (v2, _m2) = explore(rep, diamond_files(), depth, NQ_DIAMOND, run_query_diamond);
     let (v3, _m3) = explore(rep, cycle_files(), depth, NQ_CYCLE, run_query_cycle);
+    let (v4, _m4) = explore(rep, clash_files(), depth, NQ_CLASH, run_query_clash);
     // on a helper thread with a deadline: an analysis that never returns once the cache limit is
     // crossed must end this check with a verdict, not stall it (termination itself is C12's subject)
     let (tx, rx) = std::sync::mpsc::channel();
     std::thread::spawn(move || {
-        let _ = tx.send(eviction_conformance(rep));
+        let a = eviction_conformance(rep);
+        let b = eviction_of_modified_documents(rep);
+        let _ = tx.send(json!({"eviction_equals_close": a, "modified_documents_under_eviction": b}));
     });
     let ev = match rx.recv_timeout(std::time::Duration::from_secs(180)) {
         Ok(v) => v,
@@ -495,7 +568,7 @@ pub fn run(rep: &'static Report) {
             json!({"timeout": true})
         }
     };
-    let sum = |k: &str| v1[k].as_u64().unwrap_or(0) + v2[k].as_u64().unwrap_or(0) + v3[k].as_u64().unwrap_or(0);
+    let sum = |k: &str| v1[k].as_u64().unwrap_or(0) + v2[k].as_u64().unwrap_or(0) + v3[k].as_u64().unwrap_or(0) + v4[k].as_u64().unwrap_or(0);
     rep.set("states", sum("states"));
     rep.set("generated_states", sum("generated_states"));
     rep.set("max_depth", v1["max_depth"].clone());
@@ -505,10 +578,10 @@ pub fn run(rep: &'static Report) {
     rep.set("distinct_nontrivial", sum("states"));
     rep.set("traces_validated_against_impl", t);
     rep.set("eviction_conformance", ev);
-    rep.set("models", json!([v1, v2, v3]));
+    rep.set("models", json!([v1, v2, v3, v4]));
     rep.set("exhaustive", true);
     rep.sample(json!({"history": model.hist_json(&[Act::Query(0), Act::Change(0, 1), Act::Query(0)])}));
-    rep.set("rule", "explicit-state BFS (stateright) over all histories up to the stated depth of: didOpen/didChange with each version of each file (incl. an edit that removes a conftest's last definition, one that only changes its import line, one adding a fixture, a helper edit; helper modules import each other), the scan worker reaching a not-yet-analysed conftest through the no-cleanup path, didClose of an unmodified document (= eviction of that path, bound by the eviction conformance test), and 7 query kinds (available fixtures of 2 files, cycles, imported-fixture lookups across the mutually importing modules, go-to-definition through the import branch, references of every definition, resolution + unused list); state = file versions + closed flags + fingerprint of every cache's contents and freshness + depth, carrying the real warm FixtureDatabase; after EVERY transition all 7 queries are evaluated on a copy of the warm database and on a cold twin that received only the analyses, and must agree. A second model does the same over a workspace in which two nested conftest.py files reach one module through different star-import routes (diamond over a chain two modules deep; 6 query kinds asked from below either conftest), and a third one over an import cycle with two entry points whose closing edges are star imports or pytest_plugins declarations depending on the file version");
+    rep.set("rule", "explicit-state BFS (stateright) over all histories up to the stated depth of: didOpen/didChange with each version of each file (incl. an edit that removes a conftest's last definition, one that only changes its import line, one adding a fixture, a helper edit; helper modules import each other), the scan worker reaching a not-yet-analysed conftest through the no-cleanup path, didClose of an unmodified document (= eviction of that path, bound by the eviction conformance test), and 7 query kinds (available fixtures of 2 files, cycles, imported-fixture lookups across the mutually importing modules, go-to-definition through the import branch, references of every definition, resolution + unused list); state = file versions + closed flags + fingerprint of every cache's contents and freshness + depth, carrying the real warm FixtureDatabase; after EVERY transition all 7 queries are evaluated on a copy of the warm database and on a cold twin that received only the analyses, and must agree. A second model does the same over a workspace in which two nested conftest.py files reach one module through different star-import routes (diamond over a chain two modules deep; 6 query kinds asked from below either conftest), and a third one over an import cycle with two entry points whose closing edges are star imports or pytest_plugins declarations depending on the file version, and a fourth one in which a module and a package of the same name exist side by side");
     rep.assume("closing is only offered for documents whose buffer equals the on-disk content (the statement's 'unmodified document'); eviction of a set of paths has the effect of closing each of them (checked once per run by really crossing MAX_FILE_CACHE_SIZE)");
 }
 
